@@ -809,6 +809,14 @@ def baseData : EData × List Err :=
 def e0 : Entry := .mk { (baseData root n).1 with errors := (baseData root n).2 } [] [] []
 end Body
 
+/-- The directory-like case of `toEntry`: all steps, then the caches. -/
+def dirBody (env : Env) (rec : Rec) (root : Mod) (scope : List Stmt) (n : Stmt)
+    (visiting : List NodeId) (st : TState) (isMod : Bool) : Entry × TState :=
+  let (e, st) := (fieldOrder n.kw).foldl (stepFn env rec root n (n :: scope) visiting isMod) (e0 root n, st)
+  if isMod then (e, { st with cache := st.cache ++ [(root.seq, e)] })
+  else if n.kw == "grouping" then (e, { st with gcache := st.gcache ++ [(nodeId root n, e)] })
+  else (e, st)
+
 /-- One level of `toEntry`, with the recursive calls abstracted as `rec`. -/
 def toEntryBody (env : Env) (fuel : Nat) (rec : Rec) (root : Mod) (scope : List Stmt) (n : Stmt)
     (visiting : List NodeId) (st : TState) : Entry × TState :=
@@ -832,11 +840,7 @@ def toEntryBody (env : Env) (fuel : Nat) (rec : Rec) (root : Mod) (scope : List 
     match (findGrouping env.reg env.linked (2 * fuel + 16) root scope n.arg []).1 with
     | none => (errorEntry root n "unknown-group", st)
     | some (g, groot, gscope) => rec groot gscope g visiting st
-  else
-  let (e, st) := (fieldOrder n.kw).foldl (stepFn env rec root n (n :: scope) visiting isMod) (e0 root n, st)
-  if isMod then (e, { st with cache := st.cache ++ [(root.seq, e)] })
-  else if n.kw == "grouping" then (e, { st with gcache := st.gcache ++ [(nodeId root n, e)] })
-  else (e, st)
+  else dirBody env rec root scope n visiting st isMod
 
 theorem toEntry_zero (env : Env) (root : Mod) (scope : List Stmt) (n : Stmt) (visiting : List NodeId) (st : TState) :
     toEntry env 0 root scope n visiting st = (errorEntry root n "out-of-fuel", st) := rfl
@@ -987,7 +991,7 @@ theorem toEntryBody_shape (env : Env) (fuel : Nat) (rec : Rec) (root : Mod) (sco
       exact ⟨this.1, this.2.1, this.2.2.1⟩
     · have hl' : (n.kw == "leaf") = false := by simp [hl]
       have hll' : (n.kw == "leaf-list") = false := by simp [hll]
-      simp only [hl', hll', Bool.false_eq_true, if_false, Bool.or_self, Bool.not_false] at herr ⊢
+      simp only [hl', hll', Bool.false_eq_true, if_false, Bool.or_self, Bool.not_false, dirBody, hg] at herr ⊢
       have hk := rootKeep_fold_steps env rec root n (n :: scope) visiting false (fieldOrder n.kw) (e0 root n, st)
       have h0 := e0_data root n
       exact ⟨hk.1.trans h0.1, hk.2.1.trans h0.2.1, hk.2.2.trans h0.2.2.1⟩
@@ -1190,5 +1194,341 @@ theorem cond_merge (e : Entry) (ns : Option String) (oe : Entry) (h : Cond q e) 
       (fun v => by cases v; rfl) (fun v => by cases v; rfl) b v hv hb
 
 end Closure
+
+/-! ### the conversion state -/
+
+/-- Everything held in the conversion state satisfies `Cond q`, and every (sub)module that has
+recorded its augments has its entry in the cache or is one of the (sub)modules `S` whose
+conversion is in progress. -/
+structure StOK (q : Entry → Bool) (S : List Nat) (st : TState) : Prop where
+  cache : ∀ p ∈ st.cache, Cond q p.2
+  gcache : ∀ p ∈ st.gcache, Cond q p.2
+  augs : ∀ p ∈ st.augs, ∀ a ∈ p.2, Cond q a
+  keys : ∀ p ∈ st.augs, p.1 ∈ st.cache.map (·.1) ∨ p.1 ∈ S
+
+/-- Keywords whose entries are added as children. -/
+def addKws : List String :=
+  ["anydata", "anyxml", "case", "choice", "container", "leaf", "leaf-list", "list", "notification", "rpc", "action"]
+
+theorem addKws_ok : ∀ kw ∈ addKws, kw ≠ "uses" ∧ kw ≠ "grouping" ∧ kw ≠ "module" ∧ kw ≠ "submodule" ∧
+    kindOf kw ≠ .deviate := by decide
+
+theorem mem_all_kw (n : Stmt) (kw : String) (c : Stmt) (h : c ∈ n.all kw) : c.kw = kw := by
+  simp only [Stmt.all, List.mem_filter, beq_iff_eq] at h; exact h.2
+
+/-- What the induction hypothesis gives for the recursive calls. -/
+def RecOK (q : Entry → Bool) (rec : Rec) : Prop :=
+  ∀ root scope n visiting st S, StOK q S st →
+    Cond q (rec root scope n visiting st).1 ∧ StOK q S (rec root scope n visiting st).2 ∧
+      Shape n (rec root scope n visiting st).1
+
+theorem noErrors_own (e : Entry) (h : NoErrors e) : e.d.errors = [] := by
+  cases e with | mk d c i o => exact ((noErrors_mk _ _ _ _).1 h).1
+
+theorem shape_child (n : Stmt) (kw : String) (c : Stmt) (v : Entry) (hkw : kw ∈ addKws) (hc : c ∈ n.all kw)
+    (hs : Shape c v) (hv : NoErrors v) : v.name = c.arg ∧ v.d.kind ≠ .deviate := by
+  have hk := mem_all_kw n kw c hc
+  obtain ⟨h1, h2, h3, h4, h5⟩ := addKws_ok kw hkw
+  rw [← hk] at h1 h2 h3 h4 h5
+  obtain ⟨a, b, _⟩ := hs (noErrors_own v hv) h1 h2 h3 h4
+  exact ⟨a, by rw [b]; exact h5⟩
+
+section Step
+variable {env : Env} {q : Entry → Bool} (hq : LocalOK env q) {rec : Rec} (hrec : RecOK q rec)
+  (root : Mod) (n : Stmt) (sub : List Stmt) (visiting : List NodeId) (S : List Nat)
+include hq hrec
+
+/-- The invariant of the accumulator of `toEntry`'s folds. -/
+def AccOK (q : Entry → Bool) (S : List Nat) (acc : Entry × TState) : Prop := Cond q acc.1 ∧ StOK q S acc.2
+
+theorem addFold_ok (kw : String) (hkw : kw ∈ addKws) (acc : Entry × TState) (h : AccOK q S acc) :
+    AccOK q S ((n.all kw).foldl (fun (acc : Entry × TState) c =>
+      (acc.1.add c.arg (rec root sub c visiting acc.2).1, (rec root sub c visiting acc.2).2)) acc) := by
+  refine foldl_inv (AccOK q S) _ _ _ h ?_
+  rintro ⟨e, st⟩ c hc ⟨he, hst⟩
+  obtain ⟨r1, r2, r3⟩ := hrec root sub c visiting st S hst
+  exact ⟨cond_add hq _ _ _ he r1 (shape_child n kw c _ hkw hc r3), r2⟩
+
+theorem rpcFold_ok (kw : String) (hkw : kw ∈ addKws) (acc : Entry × TState) (h : AccOK q S acc) :
+    AccOK q S ((n.all kw).foldl (fun (acc : Entry × TState) c =>
+      (acc.1.add c.arg ((rec root sub c visiting acc.2).1.withD fun d => { d with isRpc := true }),
+        (rec root sub c visiting acc.2).2)) acc) := by
+  refine foldl_inv (AccOK q S) _ _ _ h ?_
+  rintro ⟨e, st⟩ c hc ⟨he, hst⟩
+  obtain ⟨r1, r2, r3⟩ := hrec root sub c visiting st S hst
+  refine ⟨cond_add hq _ _ _ he
+    (cond_withD hq _ _ (fun d => ⟨rfl, rfl, rfl, rfl, rfl, rfl⟩) (fun d => ⟨[], by simp⟩) r1) ?_, r2⟩
+  intro hv
+  generalize rec root sub c visiting st = r at r3 hv ⊢
+  obtain ⟨v, st'⟩ := r
+  cases v with | mk d c' i o =>
+  have : NoErrors (Entry.mk d c' i o) := by
+    simp only [Entry.withD] at hv
+    rw [noErrors_mk] at hv ⊢; exact hv
+  exact shape_child n kw c _ hkw hc r3 this
+
+theorem importFold_ok (l : List Stmt) (acc : Entry × TState) (h : AccOK q S acc) :
+    AccOK q S (l.foldl (fun (acc : Entry × TState) g =>
+      (acc.1.importErrors (rec root sub g visiting acc.2).1, (rec root sub g visiting acc.2).2)) acc) := by
+  refine foldl_inv (AccOK q S) _ _ _ h ?_
+  rintro ⟨e, st⟩ c hc ⟨he, hst⟩
+  obtain ⟨r1, r2, r3⟩ := hrec root sub c visiting st S hst
+  exact ⟨cond_importErrors hq _ _ he, r2⟩
+
+theorem deviateFold_ok (l : List Stmt) (acc : Entry × TState) (h : AccOK q S acc) :
+    AccOK q S (l.foldl (fun (acc : Entry × TState) dv =>
+      (if deviateKinds.contains dv.arg = true then acc.1.importErrors (rec root sub dv visiting acc.2).1
+        else (acc.1.importErrors (rec root sub dv visiting acc.2).1).addErr (Err.at_ n "deviate-unknown-kind"),
+       (rec root sub dv visiting acc.2).2)) acc) := by
+  refine foldl_inv (AccOK q S) _ _ _ h ?_
+  rintro ⟨e, st⟩ c hc ⟨he, hst⟩
+  obtain ⟨r1, r2, r3⟩ := hrec root sub c visiting st S hst
+  refine ⟨?_, r2⟩
+  dsimp only
+  split
+  · exact cond_importErrors hq _ _ he
+  · exact cond_addErr hq _ _ (cond_importErrors hq _ _ he)
+
+theorem usesFold_ok (l : List Stmt) (acc : Entry × TState) (h : AccOK q S acc) :
+    AccOK q S (l.foldl (fun (acc : Entry × TState) u =>
+      (acc.1.merge none (rec root sub u visiting acc.2).1, (rec root sub u visiting acc.2).2)) acc) := by
+  refine foldl_inv (AccOK q S) _ _ _ h ?_
+  rintro ⟨e, st⟩ c hc ⟨he, hst⟩
+  obtain ⟨r1, r2, r3⟩ := hrec root sub c visiting st S hst
+  exact ⟨cond_merge hq _ none _ he r1, r2⟩
+
+omit hq hrec in
+theorem stOK_merged (st : TState) (m : List String) (h : StOK q S st) : StOK q S { st with merged := m } :=
+  ⟨h.cache, h.gcache, h.augs, h.keys⟩
+
+
+theorem includeFold_ok (l : List Stmt) (acc : Entry × TState) (h : AccOK q S acc) :
+    AccOK q S (l.foldl (fun (acc : Entry × TState) a =>
+      match env.includeTarget root a with
+      | none => (acc.1.addErr (Err.at_ a "other"), acc.2)
+      | some im =>
+        if acc.2.merged.contains (im.name ++ ":" ++ n.arg) = true then (acc.1, acc.2)
+        else if (!acc.2.merged.contains (n.arg ++ ":" ++ im.name) && im.name != n.arg) = true then
+          if acc.2.merged.contains (im.name ++ ":" ++ (im.belongsTo?.getD "")) = true then (acc.1, acc.2)
+          else
+            (acc.1.merge none (rec im [] im.stmt visiting
+                { acc.2 with merged := acc.2.merged ++ [im.name ++ ":" ++ n.arg, im.name ++ ":" ++ (im.belongsTo?.getD "")] }).1,
+             (rec im [] im.stmt visiting
+                { acc.2 with merged := acc.2.merged ++ [im.name ++ ":" ++ n.arg, im.name ++ ":" ++ (im.belongsTo?.getD "")] }).2)
+        else if env.opts.ignoreCircular = true then (acc.1, acc.2)
+        else (acc.1.addErr (Err.bare "cycle"), acc.2)) acc) := by
+  refine foldl_inv (AccOK q S) _ _ _ h ?_
+  rintro ⟨e, st⟩ a ha ⟨he, hst⟩
+  dsimp only
+  repeat' split
+  all_goals first
+    | exact ⟨he, hst⟩
+    | exact ⟨cond_addErr hq _ _ he, hst⟩
+    | (rename_i im _ _ _ _
+       obtain ⟨r1, r2, r3⟩ := hrec im [] im.stmt visiting _ S (stOK_merged S st _ hst)
+       exact ⟨cond_merge hq _ none _ he r1, r2⟩)
+
+omit hq in
+theorem augFold_ok (l : List Stmt) (st : TState) (h : StOK q S st) :
+    (∀ a ∈ (l.foldl (fun (acc : List Entry × TState) a =>
+      (acc.1 ++ [(rec root sub a visiting acc.2).1], (rec root sub a visiting acc.2).2)) ([], st)).1, Cond q a) ∧
+    StOK q S (l.foldl (fun (acc : List Entry × TState) a =>
+      (acc.1 ++ [(rec root sub a visiting acc.2).1], (rec root sub a visiting acc.2).2)) ([], st)).2 := by
+  refine foldl_inv (fun acc : List Entry × TState => (∀ a ∈ acc.1, Cond q a) ∧ StOK q S acc.2) _ _ _ ⟨by simp, h⟩ ?_
+  rintro ⟨as, st⟩ a ha ⟨has, hst⟩
+  obtain ⟨r1, r2, r3⟩ := hrec root sub a visiting st S hst
+  refine ⟨?_, r2⟩
+  intro x hx
+  rcases List.mem_append.mp hx with hx | hx
+  · exact has x hx
+  · simp only [List.mem_singleton] at hx; subst hx; exact r1
+
+
+omit hrec in
+theorem cond_setInp (d : EData) (c o : List Entry) (ie : Entry) (he : Cond q (.mk d c [] o)) (hi : Cond q ie)
+    (hs : ie.d.errors = [] → ie.d.kind = .input) :
+    Cond q (.mk { d with isRpc := true } c [ie.withD fun d => { d with name := "input", kind := .input }] o) := by
+  cases ie with | mk d2 c2 i2 o2 =>
+  intro hne
+  simp only [Entry.withD] at hne ⊢
+  rw [noErrors_mk] at hne
+  have hne2 := hne.2.2.1 _ (List.mem_singleton.mpr rfl)
+  rw [noErrors_mk] at hne2
+  have hk : d2.kind = .input := hs hne2.1
+  have hqe := he ((noErrors_mk _ _ _ _).2 ⟨hne.1, hne.2.1, by simp, hne.2.2.2⟩)
+  have hqi := hi ((noErrors_mk _ _ _ _).2 hne2)
+  rw [everyNode_mk] at hqe hqi ⊢
+  refine ⟨?_, hqe.2.1, ?_, hqe.2.2.2⟩
+  · exact hq.setInp _ _ _ _ (hq.neutral d _ _ _ _ ⟨rfl, rfl, rfl, rfl, rfl, rfl⟩ hqe.1) rfl
+  · intro x hx
+    simp only [List.mem_singleton] at hx; subst hx
+    rw [everyNode_mk]
+    refine ⟨?_, hqi.2⟩
+    have := hq.rename _ _ _ _ "input" hqi.1
+    rw [← hk]; exact this
+
+omit hrec in
+theorem cond_setOut (d : EData) (c i : List Entry) (oe : Entry) (he : Cond q (.mk d c i [])) (ho : Cond q oe)
+    (hs : oe.d.errors = [] → oe.d.kind = .output) :
+    Cond q (.mk { d with isRpc := true } c i [oe.withD fun d => { d with name := "output", kind := .output }]) := by
+  cases oe with | mk d2 c2 i2 o2 =>
+  intro hne
+  simp only [Entry.withD] at hne ⊢
+  rw [noErrors_mk] at hne
+  have hne2 := hne.2.2.2 _ (List.mem_singleton.mpr rfl)
+  rw [noErrors_mk] at hne2
+  have hk : d2.kind = .output := hs hne2.1
+  have hqe := he ((noErrors_mk _ _ _ _).2 ⟨hne.1, hne.2.1, hne.2.2.1, by simp⟩)
+  have hqo := ho ((noErrors_mk _ _ _ _).2 hne2)
+  rw [everyNode_mk] at hqe hqo ⊢
+  refine ⟨?_, hqe.2.1, hqe.2.2.1, ?_⟩
+  · exact hq.setOut _ _ _ _ (hq.neutral d _ _ _ _ ⟨rfl, rfl, rfl, rfl, rfl, rfl⟩ hqe.1) rfl
+  · intro x hx
+    simp only [List.mem_singleton] at hx; subst hx
+    rw [everyNode_mk]
+    refine ⟨?_, hqo.2⟩
+    have := hq.rename _ _ _ _ "output" hqo.1
+    rw [← hk]; exact this
+
+omit hrec in
+theorem cond_typeSet (e : Entry) (ty : Option TypeInfo) (he : Cond q e) (hk : e.d.kind ≠ .leaf) :
+    Cond q (e.withD fun d => { d with type := ty }) := by
+  cases e with | mk d c i o =>
+  intro hne
+  simp only [Entry.withD] at hne ⊢
+  have := he (by rw [noErrors_mk] at hne ⊢; exact hne)
+  rw [everyNode_mk] at this ⊢
+  exact ⟨hq.typeSet _ _ _ _ _ hk this.1, this.2⟩
+
+omit hrec in
+theorem cond_laSet (e : Entry) (f : EData → EData) (he : Cond q e) (hk : e.d.kind = .deviate)
+    (hf : ∀ d, LaOnlyD d (f d)) (hfe : ∀ d, ∃ xs, (f d).errors = d.errors ++ xs) : Cond q (e.withD f) := by
+  cases e with | mk d c i o =>
+  intro hne
+  simp only [Entry.withD] at hne ⊢
+  rw [noErrors_mk] at hne
+  obtain ⟨xs, hxs⟩ := hfe d
+  have hd : d.errors = [] := by
+    have := hne.1; rw [hxs] at this; exact (List.append_eq_nil_iff.mp this).1
+  have := he ((noErrors_mk _ _ _ _).2 ⟨hd, hne.2⟩)
+  rw [everyNode_mk] at this ⊢
+  exact ⟨hq.laSet _ _ _ _ _ hk (hf d) this.1, this.2⟩
+
+
+omit hq hrec in
+theorem one?_kw (n : Stmt) (kw : String) (i : Stmt) (h : n.one? kw = some i) : i.kw = kw := by
+  have := List.find?_some h
+  simpa using this
+
+omit hq hrec in
+theorem withD_kind (e : Entry) (f : EData → EData) (hf : ∀ d, (f d).kind = d.kind) : (e.withD f).d.kind = e.d.kind := by
+  cases e with | mk d c i o => exact hf d
+
+theorem stepFn_ok (isMod : Bool) (hS : isMod = true → root.seq ∈ S) (acc : Entry × TState) (f : String)
+    (h : AccOK q S acc) (hkind : acc.1.d.kind ≠ .leaf)
+    (hin : f = "input" → acc.1.inp = []) (hout : f = "output" → acc.1.out = []) :
+    AccOK q S (stepFn env rec root n sub visiting isMod acc f) := by
+  obtain ⟨e, st⟩ := acc
+  obtain ⟨he, hst⟩ := h
+  dsimp only at he hst hkind hin hout
+  have hneu : ∀ (x : Entry) (g : EData → EData), (∀ d, NeutralD d (g d)) → (∀ d, (g d).errors = d.errors) → Cond q x →
+      Cond q (x.withD g) := fun x g h1 h2 hx => cond_withD hq x g h1 (fun d => ⟨[], by simp [h2 d]⟩) hx
+  unfold stepFn
+  dsimp only
+  split
+  all_goals try dsimp only
+  all_goals first
+    | exact ⟨he, hst⟩
+    | exact ⟨cond_addErrs hq _ _ (hneu _ _ (fun d => ⟨rfl, rfl, rfl, rfl, rfl, rfl⟩) (fun d => rfl) he), hst⟩
+    | (refine ⟨?_, hst⟩; split
+       · exact hneu _ _ (fun d => ⟨rfl, rfl, rfl, rfl, rfl, rfl⟩) (fun d => rfl) he
+       · exact he)
+    | exact addFold_ok hq hrec root n sub visiting S _ (by decide) (e, st) ⟨he, hst⟩
+    | exact rpcFold_ok hq hrec root n sub visiting S _ (by decide) (e, st) ⟨he, hst⟩
+    | exact importFold_ok hq hrec root sub visiting S _ (e, st) ⟨he, hst⟩
+    | exact usesFold_ok hq hrec root sub visiting S _ (e, st) ⟨he, hst⟩
+    | exact includeFold_ok hq hrec root n visiting S _ (e, st) ⟨he, hst⟩
+    | exact deviateFold_ok hq hrec root n sub visiting S _ (e, st) ⟨he, hst⟩
+    | skip
+  case h_18 =>
+    split
+    · exact ⟨he, hst⟩
+    · rename_i i hi
+      obtain ⟨r1, r2, r3⟩ := hrec root sub i visiting st S hst
+      cases e with | mk d c i' o' =>
+      have hi0 : i' = [] := hin rfl
+      subst hi0
+      refine ⟨cond_setInp hq d c o' _ he r1 ?_, r2⟩
+      intro herr
+      have hkw : i.kw = "input" := one?_kw n _ i hi
+      exact (r3 herr (by rw [hkw]; decide) (by rw [hkw]; decide) (by rw [hkw]; decide)
+        (by rw [hkw]; decide)).2.1.trans (by rw [hkw]; rfl)
+  case h_19 =>
+    split
+    · exact ⟨he, hst⟩
+    · rename_i o ho
+      obtain ⟨r1, r2, r3⟩ := hrec root sub o visiting st S hst
+      cases e with | mk d c i' o' =>
+      have ho0 : o' = [] := hout rfl
+      subst ho0
+      refine ⟨cond_setOut hq d c i' _ he r1 ?_, r2⟩
+      intro herr
+      have hkw : o.kw = "output" := one?_kw n _ o ho
+      exact (r3 herr (by rw [hkw]; decide) (by rw [hkw]; decide) (by rw [hkw]; decide)
+        (by rw [hkw]; decide)).2.1.trans (by rw [hkw]; rfl)
+  case h_23 =>
+    split
+    · exact ⟨he, hst⟩
+    · split
+      · exact ⟨cond_typeSet hq e _ he hkind, hst⟩
+      · exact ⟨cond_addErr hq _ _ he, hst⟩
+  case h_24 =>
+    split
+    · refine ⟨?_, hst⟩
+      split
+      · exact hneu _ _ (fun d => ⟨rfl, rfl, rfl, rfl, rfl, rfl⟩) (fun d => rfl) he
+      · exact he
+    · exact ⟨he, hst⟩
+  case h_26 =>
+    split
+    · exact ⟨he, hst⟩
+    · rename_i hk
+      have hk' : e.d.kind = .deviate := by simpa using hk
+      refine ⟨?_, hst⟩
+      have h1 := cond_laSet hq e (fun d => { d with listAttr := some (d.listAttr.getD {}) }) he hk'
+        (fun d => ⟨rfl, rfl, rfl, rfl, rfl⟩) (fun d => ⟨[], by simp⟩)
+      split
+      · exact h1
+      · exact cond_addErrs hq _ _ (cond_laSet hq _ _ h1 (by cases e; exact hk')
+          (fun d => ⟨rfl, rfl, rfl, rfl, rfl⟩) (fun d => ⟨[], by simp⟩))
+  case h_27 =>
+    split
+    · exact ⟨he, hst⟩
+    · rename_i hk
+      have hk' : e.d.kind = .deviate := by simpa using hk
+      refine ⟨?_, hst⟩
+      have h1 := cond_laSet hq e (fun d => { d with listAttr := some (d.listAttr.getD {}) }) he hk'
+        (fun d => ⟨rfl, rfl, rfl, rfl, rfl⟩) (fun d => ⟨[], by simp⟩)
+      split
+      · exact h1
+      · exact cond_addErrs hq _ _ (cond_laSet hq _ _ h1 (by cases e; exact hk')
+          (fun d => ⟨rfl, rfl, rfl, rfl, rfl⟩) (fun d => ⟨[], by simp⟩))
+  case h_28 =>
+    split
+    · exact ⟨he, hst⟩
+    · rename_i hm
+      have hm' : isMod = true := by simpa using hm
+      obtain ⟨a1, a2⟩ := augFold_ok hrec root sub visiting S (n.all "augment") st hst
+      refine ⟨he, ⟨a2.cache, a2.gcache, ?_, ?_⟩⟩
+      · intro p hp
+        rcases List.mem_append.mp hp with hp | hp
+        · exact a2.augs p hp
+        · simp only [List.mem_singleton] at hp; subst hp; exact a1
+      · intro p hp
+        rcases List.mem_append.mp hp with hp | hp
+        · exact a2.keys p hp
+        · simp only [List.mem_singleton] at hp; subst hp; exact Or.inr (hS hm')
+
+end Step
 
 end Goyang.Lemmas.Tree
